@@ -4,7 +4,7 @@ package main
 // in-process gateway.  Histories over 2 index names × 3 domains × 5 keys × 4 values.
 //
 // names travel as x<hex>; ops:   case N
-//        idle                     sleep past the 1 s idle timeout of the Hydrex swamps (they close, flush and reload)
+//        idle                     wait until every Hydrex swamp has passed its 1 s idle timeout (they close, flush and reload)
 //        save I D k=v,k=v…|-      hydrex.Save(index name, domain, items)
 //        destroy I D
 //        core I D                 hydrex.GetCoreData, sorted by key
@@ -48,7 +48,7 @@ var c27Adversarial = c27Pool{[]string{"idx", "Idx"}, []string{"dom", "Dom", "dö
 	[]string{"key", "Key", "KEY", "ключ", "k 0", "k.0-_", strings.Repeat("k", 200)}}
 
 // names that are NOT clean swamp name parts: empty, the wildcard, a part containing the separator (and its prefix)
-var c27Hostile = c27Pool{[]string{"i0"}, []string{"d0", "d1"}, []string{"a/b", "a", "", "*", "k0"}}
+var c27Hostile = c27Pool{[]string{"i0", "i0", "a/b", ""}, []string{"d0", "d1", "a/b", "", "*"}, []string{"a/b", "a", "", "*", "k0"}}
 
 func c27Items(rng *rand.Rand, p c27Pool) string {
 	var parts []string
@@ -106,6 +106,8 @@ func c27Gen(rng *rand.Rand, tier string, w *bufio.Writer) {
 		}
 		fmt.Fprintln(w, line)
 	}
+	// every Hydrex swamp passes its 1 s idle timeout: closed, flushed, reloaded by the reads below
+	fmt.Fprintln(w, "idle")
 	dump(c27Plain)
 	// corpus: a key containing '/', then (separately) the empty key, each next to clean keys
 	fmt.Fprintln(w, "case 2")
@@ -118,7 +120,25 @@ func c27Gen(rng *rand.Rand, tier string, w *bufio.Writer) {
 	fmt.Fprintf(w, "save %s %s %s=v3,%s=v1\n", T("i0"), T("d0"), T(""), T("k0"))
 	fmt.Fprintf(w, "core %s %s\n", T("i0"), T("d0"))
 	fmt.Fprintf(w, "index %s %s\n", T("i0"), T("k0"))
-	for c := 4; c < cases+4; c++ {
+	// corpus: a domain containing '/' next to a clean key; an empty domain; an index name containing '/'; the empty index name
+	fmt.Fprintln(w, "case 4")
+	fmt.Fprintf(w, "save %s %s %s=v1\n", T("i0"), T("a/b"), T("k0"))
+	fmt.Fprintf(w, "core %s %s\n", T("i0"), T("a/b"))
+	fmt.Fprintf(w, "index %s %s\n", T("i0"), T("k0"))
+	fmt.Fprintf(w, "save %s %s %s=v2\n", T("i0"), T(""), T("k0"))
+	fmt.Fprintf(w, "index %s %s\n", T("i0"), T("k0"))
+	fmt.Fprintf(w, "save %s %s %s=v3\n", T("a/b"), T("d0"), T("k0"))
+	fmt.Fprintf(w, "core %s %s\n", T("a/b"), T("d0"))
+	fmt.Fprintf(w, "index %s %s\n", T("a/b"), T("k0"))
+	fmt.Fprintf(w, "save %s %s %s=v3\n", T(""), T("d0"), T("k0"))
+	fmt.Fprintf(w, "core %s %s\n", T(""), T("d0"))
+	fmt.Fprintf(w, "index %s %s\n", T(""), T("k0"))
+	fmt.Fprintf(w, "save %s %s %s=v1\n", T("i0"), T("d0"), T("k0"))
+	fmt.Fprintf(w, "destroy %s %s\n", T("i0"), T("a/b"))
+	fmt.Fprintf(w, "destroy %s %s\n", T(""), T("d0"))
+	fmt.Fprintf(w, "core %s %s\n", T("i0"), T("d0"))
+	fmt.Fprintf(w, "index %s %s\n", T("i0"), T("k0"))
+	for c := 5; c < cases+5; c++ {
 		fmt.Fprintf(w, "case %d\n", c)
 		pool := c27Plain
 		if c%3 == 0 {
@@ -166,7 +186,7 @@ func c27Run(in *bufio.Scanner, w *bufio.Writer) {
 	if err != nil {
 		fmt.Fprintln(os.Stderr, "c27: rig:", err)
 		for in.Scan() {
-			fmt.Fprintln(w, "err rig")
+			fmt.Fprintln(w, "timeout rig")
 		}
 		return
 	}
@@ -183,7 +203,7 @@ func c27Run(in *bufio.Scanner, w *bufio.Writer) {
 					fmt.Fprintln(w, "panic")
 				}
 			}()
-			ctx, cancel := context.WithTimeout(context.Background(), 20*time.Second)
+			ctx, cancel := context.WithTimeout(context.Background(), HxScale(60*time.Second))
 			defer cancel()
 			name := func(t string) string {
 				v, ok := c27Untok(t)
@@ -192,13 +212,27 @@ func c27Run(in *bufio.Scanner, w *bufio.Writer) {
 				}
 				return v
 			}
-			idx := func(t string) string { return "c" + caseNo + name(t) }
+			// the case number keeps the cases apart; the EMPTY index name stays empty (nothing may be stored under it)
+			idx := func(t string) string {
+				if name(t) == "" {
+					return ""
+				}
+				return "c" + caseNo + name(t)
+			}
 			switch {
 			case f[0] == "case" && len(f) == 2:
 				caseNo = f[1]
 				fmt.Fprintln(w, line)
 			case f[0] == "idle" && len(f) == 1:
-				time.Sleep(1500 * time.Millisecond)
+				// idle timeout 1 s + 1 s gap, looked at once a second: wait until hydra holds no open swamp any more
+				deadline := time.Now().Add(HxScale(20 * time.Second))
+				for len(sdk.Rig.Zeus.GetHydra().ListActiveSwamps()) > 0 {
+					if time.Now().After(deadline) {
+						fmt.Fprintln(w, "timeout idle")
+						return
+					}
+					time.Sleep(50 * time.Millisecond)
+				}
 				fmt.Fprintln(w, "ok")
 			case f[0] == "save" && len(f) == 4:
 				items := map[string]*hydrex.CoreData{}
